@@ -40,8 +40,17 @@ pub fn opt_model_for(m: &FormatModel) -> OptModel {
     o
 }
 
+/// alternative special strings (C11): a NaN string longer than the long infinity string
+pub const ALT_NAN: &[u8] = b"NotANumberXYZ";
+pub const ALT_INF: &[u8] = b"Inf";
+pub const ALT_INFINITY: &[u8] = b"Infinite";
+
 pub fn lexical_opts(o: &OptModel) -> lexical_core::ParseFloatOptions {
-    lexical_core::ParseFloatOptions::builder().exponent(o.exponent).decimal_point(o.decimal_point).build_unchecked()
+    let b = lexical_core::ParseFloatOptions::builder().exponent(o.exponent).decimal_point(o.decimal_point);
+    if o.nan.as_deref() == Some(ALT_NAN) {
+        return b.nan_string(Some(ALT_NAN)).inf_string(Some(ALT_INF)).infinity_string(Some(ALT_INFINITY)).build_unchecked();
+    }
+    b.build_unchecked()
 }
 
 /// per-format alphabet for bounded-exhaustive strings
